@@ -24,6 +24,12 @@ fn roots(slot: &J) -> J {
 
 /// None if the header itself cannot be decoded (no magic, too short): not an image of a created database
 pub fn pre_of(image: &[u8]) -> Option<(J, J)> {
+    // (the decoder is written for well-formed files; on an image it cannot cope with - it has panicked on one crash image of a
+    // recovery in 20 million - there is no record for this image, the other judges of the image remain)
+    std::panic::catch_unwind(|| pre_of_inner(image)).unwrap_or(None)
+}
+
+fn pre_of_inner(image: &[u8]) -> Option<(J, J)> {
     let h = decode_header(image, &Options { page_size: 0 }).ok()?;
     let p = h["page_size"].as_u64().unwrap();
     let l = &h["layout"];
